@@ -32,14 +32,24 @@ structure PipeExpr where
 
 def isWordChar (c : Char) : Bool := isDigit c || ('a' ≤ c && c ≤ 'z') || ('A' ≤ c && c ≤ 'Z') || c == '_'
 
-/-- `filterRe = ^(\w+)(?:\((.*?)\))?$` : (name, args text) -/
+/-- the scan of `matchCall`: no `)` outside quotes closes the parenthesis opened after the name -/
+def argsBalanced : Str → Nat → Option Char → Bool
+  | [], _, _ => true
+  | c :: r, depth, some q => argsBalanced r depth (if c == q then none else some q)
+  | c :: r, depth, none =>
+    if c == '"' || c == '\'' then argsBalanced r depth (some c)
+    else if c == '(' then argsBalanced r (depth + 1) none
+    else if c == ')' then (if depth == 0 then false else argsBalanced r (depth - 1) none)
+    else argsBalanced r depth none
+
+/-- `matchCall`: `filterRe = ^(\w+)(?:\((.*?)\))?$` plus the balance scan : (name, args text) -/
 def matchFilterRe (s : Str) : Option (Str × Str) :=
   let name := s.takeWhile isWordChar
   let rest := s.drop name.length
   if name == [] then none
   else if rest == [] then some (name, [])
   else match rest with
-    | '(' :: r => if r.getLast? == some ')' then some (name, r.dropLast) else none
+    | '(' :: r => if r.getLast? == some ')' && argsBalanced r.dropLast 0 none then some (name, r.dropLast) else none
     | _ => none
 
 /-- `helpers.IsIdentifier` -/
